@@ -6,7 +6,10 @@ import (
 	"fmt"
 	"math/rand/v2"
 	"os"
+	"runtime"
+	"runtime/pprof"
 	"sort"
+	"strings"
 	"sync"
 	"sync/atomic"
 	"testing"
@@ -146,6 +149,59 @@ func (h *harness) listener() *jsync.SelectiveListener {
 	}
 }
 
+const (
+	labelKey        = "c06case"
+	quiescentRounds = 40
+)
+
+var caseSerial atomic.Int64
+
+// blockedStates are goroutine wait reasons (runtime.Stack header) in which a
+// goroutine cannot proceed until another goroutine or a timer acts.
+var blockedStates = map[string]bool{
+	"chan receive": true, "chan send": true, "select": true, "sleep": true, "sync.WaitGroup.Wait": true,
+	"sync.Cond.Wait": true, "semacquire": true, "select (no cases)": true, "chan receive (nil chan)": true,
+	"chan send (nil chan)": true,
+}
+
+// quiescent reports whether every goroutine carrying this case's label, other than
+// the caller, is in a blocked state (none running, runnable, in a syscall, waiting
+// for a mutex or for the garbage collector). It needs GODEBUG=tracebacklabels=1.
+func quiescent(label string) (bool, string) {
+	buf := make([]byte, 4<<20)
+	for {
+		n := runtime.Stack(buf, true)
+		if n < len(buf) {
+			buf = buf[:n]
+			break
+		}
+		buf = make([]byte, 2*len(buf))
+	}
+	needle := fmt.Sprintf("%q: %q", labelKey, label)
+	seen := 0
+	for _, g := range strings.Split(string(buf), "\n\ngoroutine ") {
+		hdr, _, _ := strings.Cut(g, "\n")
+		if !strings.Contains(hdr, needle) || strings.Contains(g, "sync.quiescent(") {
+			continue
+		}
+		seen++
+		i := strings.IndexByte(hdr, '[')
+		if i < 0 {
+			return false, hdr
+		}
+		st := hdr[i+1:]
+		if j := strings.Index(st, " labels:"); j >= 0 {
+			st = st[:j]
+		}
+		st, _, _ = strings.Cut(st, ",")
+		st = strings.TrimSuffix(strings.TrimSpace(st), "]:")
+		if !blockedStates[st] {
+			return false, hdr
+		}
+	}
+	return true, fmt.Sprintf("%d goroutines, all blocked", seen)
+}
+
 var maxMu sync.Mutex
 
 // countMax keeps a counter at the maximum value seen.
@@ -171,6 +227,7 @@ type caseCfg struct {
 	Probs        probs    `json:"fault_probabilities"`
 	CleanHeader  bool     `json:"first_latest_header_answer_clean"`
 	MinFork      int      `json:"min_fork_point"`
+	WaitOneShot  bool     `json:"stabilise_only_after_armed_one_shot_fired"`
 	Script       []action `json:"script"`
 }
 
@@ -203,6 +260,34 @@ func genCase(rng *rand.Rand, idx int, quick bool) caseCfg {
 		c.CleanHeader, c.MinFork = true, 0
 		c.Script = []action{{After: 30 + rng.IntN(60), Kind: "reorg", Rel: true, Depth: 1 << 20, LenMode: -1, K: 0}}
 		return c
+	case 6, 7, 9:
+		// The node is at the source's tip N. The source replaces the last 1-3 blocks and
+		// adds one; storing N+1' fails on its parent, and the one request revertTask then
+		// makes for the node's head height fails exactly once. After that the source is
+		// stable and healthy. (6: one fetcher; 7: parallel fetchers, because the
+		// synchroniser's idea of the highest block is stale from a longer abandoned chain;
+		// 9: same-length replacement and the one-shot failure hits the latest-header
+		// request of the reorg check instead.)
+		c.CleanHeader, c.MinFork, c.WaitOneShot = true, 1, true
+		c.Preload = 0
+		last := action{After: 5 + rng.IntN(40), Kind: "reorg", Rel: true, Depth: 1 + rng.IntN(3), LenMode: 1, K: 0, OneShot: "head"}
+		switch idx % 16 {
+		case 6:
+			c.Template = "one-shot-failure-of-revert-check-request:single-fetcher"
+			c.InitialLen = 4 + rng.IntN(9)
+			c.Script = []action{{Kind: "sync"}, last}
+		case 7:
+			c.Template = "one-shot-failure-of-revert-check-request:parallel-fetchers"
+			c.InitialLen = 40 + rng.IntN(10)
+			// early switch to a much shorter chain: fork at 6, new length 14
+			c.Script = []action{{After: 2, Kind: "reorg", Depth: c.InitialLen - 1 - 6, LenMode: -1, K: 7}, {Kind: "sync"}, last}
+		default:
+			c.Template = "one-shot-failure-of-latest-header-in-reorg-check"
+			c.InitialLen = 4 + rng.IntN(9)
+			last.LenMode, last.OneShot = 0, "header"
+			c.Script = []action{{Kind: "sync"}, last}
+		}
+		return c
 	}
 	long := rng.IntN(5) < 3 // long enough for catch-up mode (16 parallel fetchers)
 	if long {
@@ -224,6 +309,8 @@ func genCase(rng *rand.Rand, idx int, quick bool) caseCfg {
 	if rng.IntN(6) == 0 {
 		c.Probs = probs{Corrupt: 0.05} // nearly clean source: only reorgs
 	}
+	c.Probs.OneShot = rng.Float64() * 0.03
+	c.WaitOneShot = rng.IntN(2) == 0
 	c.CleanHeader = rng.IntN(5) != 0
 	c.MinFork = 1
 	if rng.IntN(6) == 0 {
@@ -264,6 +351,12 @@ func genCase(rng *rand.Rand, idx int, quick bool) caseCfg {
 			}
 			a.LenMode = rng.IntN(3) - 1
 			a.K = rng.IntN(1 << 16)
+			switch x := rng.IntN(20); {
+			case x < 4:
+				a.OneShot = "head"
+			case x < 6:
+				a.OneShot = "header"
+			}
 		}
 		c.Script = append(c.Script, a)
 	}
@@ -351,12 +444,21 @@ func runCase(t *testing.T, r *lib.Run, idx int) {
 	if r.Race {
 		ctl.grace = 3 * time.Second
 	}
+	ctl.waitOneShot = cfg.WaitOneShot
 	ctl.prearm()
-	ctx, cancel := context.WithCancel(context.Background())
+	// every goroutine started from here on inherits the label: the quiescence proof
+	// below finds the goroutines of exactly this case in a runtime stack dump
+	label := fmt.Sprintf("%d.%d", idx, caseSerial.Add(1))
+	base := context.Background()
+	pprof.SetGoroutineLabels(pprof.WithLabels(base, pprof.Labels(labelKey, label)))
+	defer pprof.SetGoroutineLabels(base)
+	ctx, cancel := context.WithCancel(base)
+	ctlCtx, ctlCancel := context.WithCancel(ctx)
+	defer ctlCancel()
 	runDone := make(chan struct{})
 	ctlDone := make(chan struct{})
 	go func() { _ = s.Run(ctx); close(runDone) }()
-	go func() { ctl.run(ctx); close(ctlDone) }()
+	go func() { ctl.run(ctlCtx); close(ctlDone) }()
 
 	scale := time.Duration(1)
 	if r.Race {
@@ -366,8 +468,10 @@ func runCase(t *testing.T, r *lib.Run, idx int) {
 	defer watchdog.Stop()
 	outcome := ""
 	stall := 45 * time.Second * scale
-	tick := time.NewTicker(time.Second)
+	tick := time.NewTicker(40 * time.Millisecond)
 	defer tick.Stop()
+	var lastProg, lastRaw uint64
+	idleTicks, rounds, rawIdle, snapshots := 0, 0, 0, 0
 	for outcome == "" {
 		select {
 		case <-src.convCh:
@@ -384,13 +488,47 @@ func runCase(t *testing.T, r *lib.Run, idx int) {
 		case <-watchdog.C:
 			outcome = "watchdog"
 		case <-tick.C:
-			// after stabilisation: neither a head movement nor an information-carrying
-			// request for a long wall-clock time = quiescent; only time can tell
-			if src.stableFlag.Load() && time.Since(time.Unix(0, src.lastProgress.Load())) > stall {
+			if !src.stableFlag.Load() {
+				// workload shaping only: a node that has stopped asking would keep the
+				// script waiting for ever; end the script so that the stable phase decides
+				if raw := src.rawReqs.Load() + src.progress.Load(); raw != lastRaw {
+					lastRaw, rawIdle = raw, 0
+				} else if rawIdle++; rawIdle > int(250*scale) {
+					ctlCancel()
+				}
+				continue
+			}
+			if p := src.progress.Load(); p != lastProg {
+				lastProg, idleTicks, rounds = p, 0, 0
+				continue
+			}
+			idleTicks++
+			if idleTicks < 3 {
+				continue
+			}
+			// No head movement and no information-carrying request for a few ticks. Wall
+			// clock only decides *when to look*; the verdict comes from a proof: in a dump
+			// of all goroutine states every goroutine of this case (synchroniser, its
+			// fetchers, verifiers, pollers, the source handlers they sit in) is blocked -
+			// nothing is running or runnable - and every request the node has open is a
+			// parked "not available". Then all parked requests are answered (one spin
+			// round) and the node must react; quiescentRounds such rounds in a row without
+			// a head movement or an effective request = the node spins (or sleeps) for ever.
+			snapshots++
+			if q, _ := quiescent(label); q {
+				rounds++
+				if rounds >= quiescentRounds {
+					outcome = "quiescent"
+				}
+				src.releaseParked()
+				idleTicks = 1
+			}
+			if time.Since(time.Unix(0, src.lastProgress.Load())) > stall {
 				outcome = "stalled"
 			}
 		}
 	}
+	r.Count("quiescence_snapshots", snapshots)
 	cancel()
 	stop := time.NewTimer(120 * time.Second * scale)
 	select {
@@ -517,6 +655,19 @@ func runCase(t *testing.T, r *lib.Run, idx int) {
 		findings = append(findings, finding{"no-convergence:" + shape,
 			fmt.Sprintf("source stable (len %d) but after %d effective requests (bound %d) the node head is #%d %s, source tip %s",
 				len(canon), eff-stableEff, bound, nodeHead.num, short(&nodeHead.hash), short(canon[len(canon)-1].Block.Hash)), -1})
+	case "quiescent":
+		r.Eval(1)
+		shape := "same-height-different-head"
+		switch {
+		case nodeHead.num+1 > int64(len(canon)):
+			shape = "node-longer-than-source"
+		case nodeHead.num+1 < int64(len(canon)):
+			shape = "node-shorter-than-source"
+		}
+		findings = append(findings, finding{"no-convergence:quiescent:" + shape,
+			fmt.Sprintf("source stable and healthy (len %d, tip %s) but the node stopped at head #%d %s: in %d consecutive spin rounds every goroutine of the synchroniser was blocked, "+
+				"all its open requests were 'not available' for heights above head+1, and answering them changed nothing (%d effective requests since stabilisation, bound %d)",
+				len(canon), short(canon[len(canon)-1].Block.Hash), nodeHead.num, short(&nodeHead.hash), quiescentRounds, eff-stableEff, bound), -1})
 	case "stalled":
 		r.Inconclusive("watchdog:quiescent-after-stabilisation")
 		r.Note(fmt.Sprintf("case %d quiescent after stabilisation: node head #%d, source tip #%d", idx, nodeHead.num, len(canon)-1))
@@ -613,7 +764,35 @@ func runCase(t *testing.T, r *lib.Run, idx int) {
 	}
 }
 
+// labelsVisible checks that a labelled, blocked goroutine is found as such.
+func labelsVisible() (bool, string) {
+	base := context.Background()
+	pprof.SetGoroutineLabels(pprof.WithLabels(base, pprof.Labels(labelKey, "selftest")))
+	defer pprof.SetGoroutineLabels(base)
+	stop := make(chan struct{})
+	go func() { <-stop }()
+	defer close(stop)
+	for i := 0; i < 200; i++ {
+		q, why := quiescent("selftest")
+		if q && strings.HasPrefix(why, "1 ") {
+			return true, why
+		}
+		if i == 199 {
+			return false, why
+		}
+		time.Sleep(time.Millisecond)
+	}
+	return false, ""
+}
+
 func TestC06(t *testing.T) {
+	// goroutine labels in runtime.Stack headers (used by the quiescence proof)
+	if gd := os.Getenv("GODEBUG"); !strings.Contains(gd, "tracebacklabels") {
+		os.Setenv("GODEBUG", strings.TrimPrefix(gd+",tracebacklabels=1", ","))
+	}
+	if ok, why := labelsVisible(); !ok {
+		t.Fatalf("goroutine labels are not visible in runtime.Stack (%s): the quiescence proof cannot work", why)
+	}
 	r := lib.Start("C06", "exploration")
 	n := r.N(64, 1000)
 	r.Cases(n, 0, func(idx int) { runCase(t, r, idx) })
@@ -622,10 +801,13 @@ func TestC06(t *testing.T) {
 	r.Assume("pre-confirmed polling disabled (interval 0); memory database; chains avoid inputs of open findings of other properties (lib.Avoid)")
 	r.Finish("case = one run of the real sync.Synchronizer.Run on a real Blockchain (legacy or new state) against a scripted DataSource "+
 		"(fork tree + canonical path + logical clock under one mutex; per-request error / delay / single-field-tampered block / stale-but-canonical latest header; "+
-		"a controller that extends or reorganises the source after random numbers of requests, incl. a directed out-of-order schedule; then stabilises). "+
+		"one-shot failure of the next request for exactly the node's head height / of the next latest-header request, armed with a reorg or at random; "+
+		"a controller that extends or reorganises the source after random numbers of requests, incl. directed templates (out-of-order answers around a reorg, whole chain replaced by one block, "+
+		"one-shot failure of revertTask's request right after a reorg at the tip with one or with parallel fetchers); then stabilises). "+
 		"Recorded: every committed chain-height change (db wrapper, with header + source logical time), OpStore/OnReorg listener callbacks, both feeds drained at every "+
 		"commit and callback. Oracle: (a) stored blocks were served untampered and read back equal, (b) head moves +1 onto parent or -1, (c) a reverted block is not "+
 		"canonical at the source at that logical time, (d) one new-head notification per store in order, never before the commit, (e) reorg notification = run of reverts "+
-		"since the previous store, (f) after stabilisation head == source tip within 40*(len+50) effective source requests and the final chain equals the source's; "+
+		"since the previous store, (f) after stabilisation head == source tip within 40*(len+50) effective source requests, no proven-quiescent stop short of it "+
+		"(40 consecutive spin rounds in which a goroutine dump shows every goroutine of the synchroniser blocked and answering its parked requests changes nothing), and the final chain equals the source's; "+
 		"evaluations = history events checked; distinct = converged runs with at least one revert, keyed by configuration and outcome shape", 4)
 }
